@@ -29,13 +29,22 @@ Proof.
     split; [exact I|exact IH].
 Qed.
 
+Lemma meta_or_unknown_kd st k : keys_distinct (meta_or_unknown st k).
+Proof. unfold meta_or_unknown. destruct (lookup k (metadata st)); exact I. Qed.
+
+Lemma enc_save_meta_kd st : keys_distinct (enc_save_meta st).
+Proof.
+  unfold enc_save_meta. cbn [keys_distinct map fst allPi snd]. split; [|repeat split].
+  repeat constructor; cbn [In]; intros Hin; repeat (destruct Hin as [Hin|Hin]; [discriminate Hin|]); exact Hin.
+Qed.
+
 (* what save_state() returns has distinct keys at every depth, when the engine's dictionaries are
    Python dictionaries *)
-Theorem save_json_kd cx fuel out_enc e doc :
+Theorem save_json_kd st cx fuel out_enc now e doc :
   ctx_kd cx -> env_kd (vars (ec e)) ->
   NoDup (map fst (hooks (ec e))) -> NoDup (map fst (joinidx (ec e))) ->
   (forall o, out (ec e) = Some o -> keys_distinct (out_enc o)) ->
-  save_json cx fuel out_enc e = Some doc -> keys_distinct doc.
+  save_json st cx fuel out_enc now e = Some doc -> keys_distinct doc.
 Proof.
   intros Hcx [Hnd Hv] Hh Hj Ho E. unfold save_json in E.
   destruct (save_doc fuel fixed cx (vars (ec e))) as [sd|] eqn:Es; [|discriminate E].
@@ -45,9 +54,12 @@ Proof.
   - repeat constructor; cbn [In]; intros Hin;
       repeat (destruct Hin as [Hin|Hin]; [discriminate Hin|]); exact Hin.
   - split; [exact I|].
+    split; [apply meta_or_unknown_kd|]. split; [apply meta_or_unknown_kd|]. split; [apply meta_or_unknown_kd|].
+    split; [exact I|].
     split; [destruct (cur (ec e)); exact I|].
     split; [split; [apply I3; exact Hnd|exact I1]|].
     split; [apply enc_strs_kd|].
+    split; [apply enc_save_meta_kd|].
     split; [apply enc_hooks_kd; exact Hh|].
     split; [apply enc_join_kd; exact Hj|].
     split; [|exact I].
@@ -56,11 +68,11 @@ Qed.
 
 (* C05/C06 "save, JSON text, load": the text of a saved document loads back as the tree the
    theorems of Props/C05.v and Props/C06.v call json_rt doc *)
-Theorem save_text_roundtrip cx fuel out_enc e doc :
+Theorem save_text_roundtrip st cx fuel out_enc now e doc :
   ctx_kd cx -> env_kd (vars (ec e)) ->
   NoDup (map fst (hooks (ec e))) -> NoDup (map fst (joinidx (ec e))) ->
   (forall o, out (ec e) = Some o -> keys_distinct (out_enc o)) ->
-  save_json cx fuel out_enc e = Some doc ->
+  save_json st cx fuel out_enc now e = Some doc ->
   loads (dumps doc) = Some (json_rt doc) /\ loads (dumps_indent2 doc) = Some (json_rt doc).
 Proof.
   intros. assert (keys_distinct doc) by (eapply save_json_kd; eauto).
